@@ -508,8 +508,15 @@ def blocksLines (useHex : Int → Bool) : List Block → List Bytes
   | [b] => blockLines useHex b
   | b :: c :: bs => blockLines useHex b ++ [[]] ++ blocksLines useHex (c :: bs)
 
+def sDeclare : Bytes := [100, 101, 99, 108, 97, 114, 101, 32]     -- "declare "
+
+/-- a function without blocks is a declaration (ir/func.go LLString): one line, the parameters with their names -/
+def declString (f : Func) : Bytes :=
+  sDeclare ++ tyString f.ret ++ [32] ++ Enc.globalName f.name ++ [40] ++ paramsString f.params ++ [41]
+
 def printFunc (useHex : Int → Bool) (f : Func) : List Bytes :=
-  headerString f :: blocksLines useHex f.blocks ++ [[125]]
+  if f.blocks.isEmpty then [declString f]
+  else headerString f :: blocksLines useHex f.blocks ++ [[125]]
 
 /-- the text of the function as `Func.LLString()` returns it (lines joined by a line feed) -/
 def flatten : List Bytes → Bytes
@@ -588,9 +595,16 @@ def readBlocks : Nat → List Bytes → Option (List Block)
            | some bs => some (⟨lab, is, t⟩ :: bs)
            | none => none)
 
+/-- `declare T @f(params)`: read as the header of a definition -/
+def readDecl (s : Bytes) : Option (Ty × Bytes × List (Ty × Ident)) :=
+  match TyParse.stripPrefix sDeclare s with
+  | some r => readHeader (sDefine ++ r ++ [32, 123])
+  | none => none
+
 def readFunc (ls : List Bytes) : Option Func :=
   match ls with
   | [] => none
+  | [h] => (match readDecl h with | some (rt, n, ps) => some ⟨rt, n, ps, []⟩ | none => none)
   | h :: rest =>
     match readHeader h, readBlocks (rest.length + 1) rest with
     | some (rt, n, ps), some bs => some ⟨rt, n, ps, bs⟩
@@ -922,7 +936,7 @@ def blockOKB (b : Block) : Bool :=
 
 /-- syntactic well-formedness: non-empty names, IDs within the parser's range, arguments matching the rows, one terminator per block (last) -/
 def wfSyn (f : Func) : Bool :=
-  !f.name.isEmpty && f.params.all (fun p => identOKB p.2) && !f.blocks.isEmpty && f.blocks.all blockOKB
+  !f.name.isEmpty && f.params.all (fun p => identOKB p.2) && f.blocks.all blockOKB
 
 /-- the type written in front of every local operand is the type of that operand's definition -/
 def consistentOp (ge : GEnv) (e : List (Ident × Ty)) (t : Ty) : Operand → Bool
